@@ -216,6 +216,7 @@ Theorem tucker_exact_of_factors (svd : nat -> tensor F -> @svdans F) X rank n_it
 Proof.
   intros WX Hrun Hlen Hspan. unfold tucker in Hrun.
   destruct (negb _); [discriminate|].
+  destruct (ndim X <=? 1); [discriminate|].
   destruct (hosvd_factors Op svd X _ 0 0) as [fs0|]; [|discriminate]. cbn [rbind] in Hrun.
   destruct (hooi_iter Op svd X _ n_iter (ndim X) fs0) as [fs1|]; [|discriminate]. cbn [rbind] in Hrun.
   destruct (multi_mode_dot Op X fs1 0 None true) as [core1|] eqn:Ecore; [|discriminate]. cbn [rbind] in Hrun.
